@@ -408,8 +408,30 @@ func marshalStructWithMap[T any](s *T, mapField string) ([]byte, error) {
 // Here jsonNames also returns fields from embedded structs, hence this function
 // handles embedded structs as well.
 func unmarshalStructWithMap[T any](data []byte, v *T, mapField string) error {
+	// encoding/json matches object keys to struct fields case-insensitively, but
+	// JSON Schema keywords are case-sensitive: "Type" or "TITLE" are unknown
+	// keywords, not "type" or "title". Hide from the struct every key that is
+	// not exactly the JSON name of a field; those keys end up in the map.
+	names := jsonNames(reflect.TypeFor[T]())
+	var raw map[string]json.RawMessage
+	if err := json.Unmarshal(data, &raw); err != nil {
+		return err
+	}
+	exact := make(map[string]json.RawMessage, len(raw))
+	for k, val := range raw {
+		if names[k] {
+			exact[k] = val
+		}
+	}
+	structData := data
+	if len(exact) != len(raw) {
+		var err error
+		if structData, err = json.Marshal(exact); err != nil {
+			return err
+		}
+	}
 	// Unmarshal into the struct, ignoring unknown fields.
-	if err := json.Unmarshal(data, v); err != nil {
+	if err := json.Unmarshal(structData, v); err != nil {
 		return err
 	}
 	// Unmarshal into the map.
@@ -418,7 +440,7 @@ func unmarshalStructWithMap[T any](data []byte, v *T, mapField string) error {
 		return err
 	}
 	// Delete from the map the fields of the struct.
-	for n := range jsonNames(reflect.TypeFor[T]()) {
+	for n := range names {
 		delete(m, n)
 	}
 	if len(m) != 0 {
